@@ -1429,6 +1429,11 @@ class Acceptor:
         tags = {'C02', 'C03'}
         root.running = True
         root.active = list(root.m['regions'])
+        if self.mp and root.m.get('history') == 'always' and getattr(root, 'hist', None) and all(root.hist):
+            # backmp11 runs the root's history policy in start() as well: a stopped root with always-history is
+            # restored (back / back11 reset to the initial states); outside the clause 'a machine without history
+            # can be started again from its initial states'
+            root.active = list(root.hist)
         start_occ = Occ('other', -1, self.gseq)
         # back / back11 do not mark the root as processing while start() runs the initial entries
         root.processing = True
